@@ -49,24 +49,28 @@ func absForward(p prog.Program) ref.T {
 // libForward builds the leaves (tracked as flagged) and applies the node; if the program asks
 // for it, the same operation then runs once more on other data before anything is read.
 func libForward(p prog.Program) ([]tensor.Tensor, tensor.Tensor, error) {
+	lib.ResetAncestors()
 	vals, err := prog.RunLib(p)
 	if err != nil {
 		return nil, nil, err
 	}
 	if p.Disturb {
 		prog.Disturbance(p, false)
-		for i, l := range p.Leaves {
-			// the operands are still what they were
-			s, v, err := lib.Read(vals[i])
-			if err != nil || !ref.EqShape(s, l.Shape) {
-				return nil, nil, fmt.Errorf("operand %d changed its shape to %v after a later, unrelated call (%v)", i, s, err)
-			}
-			for k := range v {
-				if !lib.SameBits(v[k], l.Vals[k]) {
-					return nil, nil, fmt.Errorf("operand %d element %d changed from %v to %v after a later, unrelated call", i, k, l.Vals[k], v[k])
-				}
+	}
+	// the operands, and the tensors they were derived from, are still what they were
+	for i, l := range p.Leaves {
+		s, v, err := lib.Read(vals[i])
+		if err != nil || !ref.EqShape(s, l.Shape) {
+			return nil, nil, fmt.Errorf("operand %d changed its shape to %v after the call (%v)", i, s, err)
+		}
+		for k := range v {
+			if !lib.SameBits(v[k], l.Vals[k]) {
+				return nil, nil, fmt.Errorf("operand %d element %d changed from %v to %v after the call", i, k, l.Vals[k], v[k])
 			}
 		}
+	}
+	if err := lib.CheckAncestors(); err != nil {
+		return nil, nil, fmt.Errorf("after the call, %w", err)
 	}
 	return vals[:len(p.Leaves)], vals[len(vals)-1], nil
 }
